@@ -585,7 +585,7 @@ def guess_initial_parameters(idnt=None,
                   + "column 'tip position'"
             warnings.warn(msg, FitWarning)
     if model_ancillaries and idnt is not None:
-        anc_dict = idnt.get_ancillary_parameters()
+        anc_dict = idnt.get_ancillary_parameters(model_key=model_key)
         # set the parameter values
         for anckey in anc_dict:
             if anckey in params:
